@@ -113,6 +113,23 @@ class Interp:
             def load(self):
                 return it.on_load(self.hid)
 
+        heq = self.cfg.get('heq')
+        if heq == 'equal':          # distinct handles that compare equal
+            CountingHandle.__eq__ = lambda a, b: isinstance(b, CountingHandle)
+            CountingHandle.__hash__ = lambda a: 1
+        elif heq == 'unhashable':   # __eq__ without __hash__
+            CountingHandle.__eq__ = lambda a, b: a is b
+            CountingHandle.__hash__ = None
+
+        class InnerHandle(d.Handle):
+            """A resource that is itself a handle: accesses must hand it
+            out as it is, never load it."""
+            def load(self):
+                it.inner_loads += 1
+                return object()
+
+        self.InnerHandle = InnerHandle
+        self.inner_loads = 0
         self.CountingHandle = CountingHandle
         self.root = MMap('R', d.ResourceMap())
         self.maps = {'R': self.root}        # map id -> MMap
@@ -135,7 +152,8 @@ class Interp:
                 'eq_true': EqTrue, 'eq_false': EqFalse,
                 'eq_raises': EqRaises, 'obj': object,
                 'world': d.World, 'via': object,
-                'clearer': object}[vcode]()
+                'clearer': object, 'inner': self.InnerHandle,
+                'selfh': object}[vcode]()
 
     def on_load(self, hid):
         st = self.h[hid]
@@ -144,6 +162,11 @@ class Interp:
         if st.attempts in st.fails:
             self.faults['load_raises'] += 1
             raise LoadFail(f'h{hid} load #{st.attempts}')
+        if st.vcode == 'selfh':
+            v = st.obj                  # the resource is the handle itself
+            st.completed += 1
+            st.last = v
+            return v
         if st.vcode == 'clearer':
             # this load clears another handle (possibly one whose own load
             # is in progress further up the stack)
@@ -234,6 +257,12 @@ class Interp:
         if not st.obj.cached:
             self.fail('C12', 'cached_flag', f'h{hid}.cached is false right '
                       f'after a successful access via {how}')
+        if self.inner_loads:
+            self.fail('C12', 'identity', f'access to h{hid} via {how} loaded '
+                      f'the handle that *is* the resource instead of handing '
+                      f'it out')
+        if st.vcode in ('inner', 'selfh'):
+            self.probes['handle_valued_resource'] += 1
         st.paths.add(how)
         self.probes['path.' + how] += 1
         if len(st.paths) >= 3 and st.vcode in FALSY:
@@ -859,7 +888,8 @@ class GenState:
         rng = self.rng
         hid = self.new_id()
         if self.prop == 'C12':
-            val = rng.choice(VCODES) if rng.random() < .8 else 'obj'
+            val = rng.choice(VCODES + ['inner', 'selfh']) \
+                if rng.random() < .8 else 'obj'
             fails = [rng.choice([1, 2])] if rng.random() < .15 else []
         else:
             val = rng.choice(['obj', 'obj', 'none', 'zero', 'list'])
@@ -970,7 +1000,10 @@ def generate(prop, run_seed, tier='quick', tolerate=frozenset()):
         elif kind == 'snap_check' and gs.snaps:
             ops.append(['snap_check', rng.randint(1, gs.snaps),
                         rng.random() < .5])
-    return {'format': 1, 'engine': 'restree', 'config': {'alphabet': alpha},
+    heq = crng.choice([None, None, None, None, 'equal', 'unhashable']) \
+        if prop == 'C11' else None
+    return {'format': 1, 'engine': 'restree',
+            'config': {'alphabet': alpha, 'heq': heq},
             'ops': ops, 'scripts': {}}
 
 
@@ -1044,7 +1077,8 @@ PROBES = {
             'path.getitem_sub', 'path.getitem_chain', 'path.get_call',
             'path.static_attr', 'path.static_item', 'path.static_get',
             'path.loop_switch', 'path.nested_load', 'nested_load',
-            'clear_from_inside_a_load', 'eq_raises_value', 'load_failed',
+            'clear_from_inside_a_load', 'handle_valued_resource',
+            'eq_raises_value', 'load_failed',
             'load_failed_then_retry', 'clear_between_accesses'],
     'C17': ['non_identifier_name', 'layered_snapshot',
             'nested_setattr_rejected', 'setattr_rejected',
